@@ -42,7 +42,7 @@ func (r *Rand) Intn(n int) int {
 	}
 	return int(r.U64() % uint64(n))
 }
-func (r *Rand) Bool() bool     { return r.U64()&1 == 1 }
+func (r *Rand) Bool() bool        { return r.U64()&1 == 1 }
 func (r *Rand) Chance(p int) bool { return r.Intn(100) < p }
 func (r *Rand) Bytes(n int) []byte {
 	b := make([]byte, n)
@@ -96,22 +96,22 @@ type Recorder struct {
 	Rule     string
 	Assume   []string
 
-	mu          sync.Mutex
-	evals       int64
-	classes     map[string]int64
-	events      map[string]int64
-	samples     []any
-	sampleSeen  map[string]bool
-	violations  []Violation
-	violSeen    map[string]bool
-	violCount   int64
-	extra       map[string]any
+	mu           sync.Mutex
+	evals        int64
+	classes      map[string]int64
+	events       map[string]int64
+	samples      []any
+	sampleSeen   map[string]bool
+	violations   []Violation
+	violSeen     map[string]bool
+	violCount    int64
+	extra        map[string]any
 	inconclusive []string
 	harnessErrs  []string
-	start       time.Time
-	MaxSamples  int
-	Exhaustive  bool
-	replayWant  *Violation // set in replay mode
+	start        time.Time
+	MaxSamples   int
+	Exhaustive   bool
+	replayWant   *Violation // set in replay mode
 }
 
 func NewRecorder(property, tier string, seed int64, level string) *Recorder {
@@ -245,6 +245,15 @@ func verifDir() string {
 	return "/verif"
 }
 
+// outDir is where evidence and replay files go (VERIF_OUT overrides, used
+// for mutant runs so they never touch the committed evidence).
+func outDir() string {
+	if d := os.Getenv("VERIF_OUT"); d != "" {
+		return d
+	}
+	return verifDir()
+}
+
 func loadKnown() KnownFindings {
 	var k KnownFindings
 	b, err := os.ReadFile(filepath.Join(verifDir(), "known_findings.json"))
@@ -336,7 +345,7 @@ func (r *Recorder) Finish() int {
 		"violations":  len(fresh),
 	}
 	if r.replayWant == nil {
-		dir := filepath.Join(verifDir(), "evidence")
+		dir := filepath.Join(outDir(), "evidence")
 		_ = os.MkdirAll(dir, 0o755)
 		b, _ := json.MarshalIndent(ev, "", " ")
 		if err := os.WriteFile(filepath.Join(dir, r.Property+".json"), append(b, '\n'), 0o644); err != nil {
@@ -375,7 +384,7 @@ func (r *Recorder) Finish() int {
 		fmt.Printf("HARNESS-ERROR property=%s %s\n", r.Property, h)
 	}
 	if len(fresh) > 0 {
-		dir := filepath.Join(verifDir(), "replays")
+		dir := filepath.Join(outDir(), "replays")
 		_ = os.MkdirAll(dir, 0o755)
 		for _, v := range fresh {
 			h := sha256.Sum256([]byte(v.Oracle + "|" + v.Key))
@@ -449,6 +458,10 @@ func FullHex(b []byte) string {
 	return hex.EncodeToString(b)
 }
 
+// OnWorkerPanic, when set, receives panics of workload goroutines (harness
+// faults: library calls are guarded separately).
+var OnWorkerPanic func(v any, stack string)
+
 // Parallel runs f(worker, index) for index in [0,n) on `workers` goroutines.
 func Parallel(workers, n int, f func(w, i int)) {
 	if workers < 1 {
@@ -461,7 +474,18 @@ func Parallel(workers, n int, f func(w, i int)) {
 		go func(w int) {
 			defer wg.Done()
 			for i := range next {
-				f(w, i)
+				func() {
+					defer func() {
+						if r := recover(); r != nil {
+							if OnWorkerPanic != nil {
+								OnWorkerPanic(r, string(debug.Stack()))
+							} else {
+								panic(r)
+							}
+						}
+					}()
+					f(w, i)
+				}()
 			}
 		}(w)
 	}
